@@ -535,6 +535,7 @@ def _edge_of_limits(rec, i, name, kernel, oracle, pars, meta, dim, qv, qo):
             m.setParam(base + ".type", pe.get(base + "_pd_type", "gaussian"))
     try:
         m.details[tname] = [m.details[tname][0], 0.9*v, 1.1*v]
+        m.cutoff = 0.0
         Is = np.asarray(m.evalDistribution(qv[0] if len(qv) == 1 else [qv[0], qv[1]]), float)
     except Exception as exc:
         rec.check("I_equals_weighted_mean", False, dict(ctx, note="SasView model object with a fit range entered",
